@@ -1,4 +1,4 @@
-import UsualProofs.C01.Out
+import UsualProofs.C01.SubCard
 /-! The `list_for_each_safe` protocol of `free_children` never loses its cursor, and
 `free_children(ptr, true)` leaves nothing behind: the ghost flag `stuck` is never set.  Along
 the way: everything outside the freed subtree is left alone (`Keeps`). -/
@@ -17,6 +17,39 @@ theorem succOf_mem (l : List Id) (c t : Id) (h : succOf l c = some t) : t ∈ l 
 
 theorem succOf_head (c : Id) (post : List Id) : succOf (c :: post) c = post.head? := by
   simp [succOf]
+
+theorem succOf_ne (l : List Id) (c t : Id) (hnd : l.Nodup) (h : succOf l c = some t) : t ≠ c := by
+  induction l with
+  | nil => simp [succOf] at h
+  | cons x xs ih =>
+    have hnd' := List.nodup_cons.1 hnd
+    simp only [succOf] at h
+    split at h
+    · rename_i e; subst e
+      intro e2; subst e2
+      exact hnd'.1 (List.mem_of_mem_head? h)
+    · exact ih hnd'.2 h
+
+theorem succOf_rel (R : Id → Id → Prop) (l : List Id) (c t : Id) (hp : l.Pairwise R) (h : succOf l c = some t) :
+    R c t := by
+  induction l with
+  | nil => simp [succOf] at h
+  | cons x xs ih =>
+    have hp' := List.pairwise_cons.1 hp
+    simp only [succOf] at h
+    split at h
+    · rename_i e; subst e
+      exact hp'.1 t (List.mem_of_mem_head? h)
+    · exact ih hp'.2 h
+
+theorem sublist_tail_eq (l post : List Id) (c : Id) (h : List.Sublist l (c :: post)) (hc : c ∉ l)
+    (hall : ∀ t ∈ post, t ∈ l) (hnd : (c :: post).Nodup) : l = post := by
+  have h1 : List.Sublist l post := by
+    rcases List.sublist_cons_iff.1 h with h | ⟨r, rfl, -⟩
+    · exact h
+    · exact absurd (List.mem_cons_self) hc
+  have h2 : post.length ≤ l.length := ((List.nodup_cons.1 hnd).2.subperm hall).length_le
+  exact h1.eq_of_length_le h2
 
 /-- the release of a TRef / `.memlimit` chunk does not touch the ghost flag -/
 theorem run_free_leaf_stuck (cfg : Cfg) (f : Nat) (a : State) (r : Nat) (rb : Obj) (hr : a.get r = some rb)
@@ -47,7 +80,10 @@ def UnlinkStmt3 (cfg : Cfg) (rk : Nat → Nat) (f : Nat) : Prop :=
   ∀ (s : State) (ctx : Option Id) (x : Nat) (xb : Obj), Inv rk s → s.get x = some xb → xb.kind = .plain →
     xb.pending = false → xb.parent = orNull s ctx → s.nullCtx ≠ some x → PendBelow rk s (rk x) none →
     PendNR s none → s.stuck = false → (run cfg f s (.unlink ctx x)).1.oof = false →
-    (run cfg f s (.unlink ctx x)).1.stuck = false ∧ Keeps (Outside s x) s (run cfg f s (.unlink ctx x)).1
+    (run cfg f s (.unlink ctx x)).1.stuck = false ∧ Keeps (Outside s x) s (run cfg f s (.unlink ctx x)).1 ∧
+    ((run cfg f s (.unlink ctx x)).2 = 0 → (run cfg f s (.unlink ctx x)).1.get x = none ∨
+      ∃ xb' r rb, (run cfg f s (.unlink ctx x)).1.get x = some xb' ∧ s.get r = some rb ∧ rb.kind = .ref x ∧
+        xb'.parent = rb.parent ∧ (run cfg f s (.unlink ctx x)).1.get r = none)
 
 def LoopStmt3 (cfg : Cfg) (rk : Nat → Nat) (f : Nat) : Prop :=
   ∀ (s : State) (o : Nat) (ob : Obj) (fn : Bool) (cur : Option Id), Inv rk s → s.get o = some ob →
@@ -91,7 +127,8 @@ theorem free_step3 (cfg : Cfg) (hfix : cfg.fixCx = true) (rk : Nat → Nat) (f :
   | false =>
     simp only [hds] at hoof ⊢
     refine ⟨hst, ?_⟩
-    exact (keeps_modify _ s x (fun o => { o with dtor := d' }) (fun _ => ⟨rfl, rfl, rfl, rfl⟩)).trans
+    exact (keeps_modify _ s x (fun o => { o with dtor := d' }) (fun _ => ⟨rfl, rfl, rfl, rfl⟩)
+      (fun h => absurd h hux)).trans
       (Keeps.of_shapeEq _ (shapeEq_addLog _ _))
   | true =>
     simp only [hds] at hoof ⊢
@@ -148,14 +185,20 @@ theorem free_step3 (cfg : Cfg) (hfix : cfg.fixCx = true) (rk : Nat → Nat) (f :
     exact k12.trans ((k23.mono hmono).trans ((keeps_remove s3 x hux).trans (Keeps.of_shapeEq _ f2)))
 
 
-theorem unlink_step3 (cfg : Cfg) (rk : Nat → Nat) (f : Nat) (hf3 : FreeStmt3 cfg rk f) :
+theorem unlink_step3 (cfg : Cfg) (hfix : cfg.fixCx = true) (rk : Nat → Nat) (f : Nat) (hf3 : FreeStmt3 cfg rk f) :
     UnlinkStmt3 cfg rk (f + 1) := by
   intro s ctx x xb i hx hxk hnp hpar hnull hpb hnr hst hoof
   simp only [run, hx, hpar, ne_eq, not_true_eq_false, if_false] at hoof ⊢
   cases hrefs : xb.refs with
   | nil =>
     simp only [hrefs] at hoof ⊢
-    exact hf3 s x xb i hx hxk hrefs hnp hnull hpb hnr hst hoof
+    obtain ⟨a1, a2⟩ := hf3 s x xb i hx hxk hrefs hnp hnull hpb hnr hst hoof
+    refine ⟨a1, a2, ?_⟩
+    intro hrc
+    obtain ⟨-, hpost⟩ := (run_good cfg hfix rk f).1 s x xb i hx hrefs hnp hnull hpb hoof a1
+    rcases hpost with ⟨-, h⟩ | ⟨h, -⟩
+    · exact Or.inl h
+    · rw [hrc] at h; cases h
   | cons r rest =>
     simp only [hrefs] at hoof ⊢
     obtain ⟨rb, hr, hrk⟩ := i.wf.refLive x xb r hx (by rw [hrefs]; simp)
@@ -189,7 +232,7 @@ theorem unlink_step3 (cfg : Cfg) (rk : Nat → Nat) (f : Nat) (hf3 : FreeStmt3 c
         rw [e1]; intro e
         obtain ⟨po, hpo, hpk, -⟩ := i.wf.parentLive r rb r hr e
         rw [hr] at hpo; cases hpo; exact hrnp hpk
-      obtain ⟨-, c2⟩ := run_free_leaf cfg f _ r rb' hr' (e4 ▸ hrnp) (e2 ▸ lc) (e3 ▸ lr) (e5 ▸ lp) (e6 ▸ ld) ht hpr
+      obtain ⟨c1, c2⟩ := run_free_leaf cfg f _ r rb' hr' (e4 ▸ hrnp) (e2 ▸ lc) (e3 ▸ lr) (e5 ▸ lp) (e6 ▸ ld) ht hpr
       have hs := run_free_leaf_stuck cfg f _ r rb' hr' (e4 ▸ hrnp) (e2 ▸ lc) (e3 ▸ lr) (e5 ▸ lp) (e6 ▸ ld) ht hpr
       refine ⟨by rw [hs, (frame_promoteMove cfg s x xb rb rest (orNull s ctx)).stuck]; exact hst, ?_⟩
       have hcomm : ShapeEq (moveS (freeLeafS s r) x rb.parent false)
@@ -199,7 +242,537 @@ theorem unlink_step3 (cfg : Cfg) (rk : Nat → Nat) (f : Nat) (hf3 : FreeStmt3 c
         refine shapeEq_get_eq ?_ (fun j => promote_comm i.wf hx hxk hrefs hnp hr hq hself j)
         rw [nullCtx_freeLeafS, nullCtx_moveS, nullCtx_freeLeafS]
         unfold promoteS; simp
-      exact (keeps_promote i.wf hx hxk hr hrk rest hq hself (not_outside_self s x)
-        (fun h => h.2 ⟨rb, x, hr, hrk⟩)).trans (Keeps.of_shapeEq _ hcomm)
+      refine ⟨(keeps_promote i.wf hx hxk hr hrk rest hq hself (not_outside_self s x)
+        (fun h => h.2 ⟨rb, x, hr, hrk⟩)).trans (Keeps.of_shapeEq _ hcomm), ?_⟩
+      intro _
+      right
+      have hLx : (freeLeafS s r).get x = some { xb with children := xb.children.erase r, refs := xb.refs.erase r } := by
+        rw [freeLeafS_get i.wf hr hrnp]; unfold eraseAll; simp [hxr, hx]
+      have hmx := moveS_getG hLx rb.parent false hq hself x
+      simp only [if_true] at hmx
+      obtain ⟨xb', h1, h2, -⟩ := hcomm.get hmx
+      have hmr := moveS_getG hLx rb.parent false hq hself r
+      have hLr : (freeLeafS s r).get r = none := by
+        rw [freeLeafS_get i.wf hr hrnp]; unfold eraseAll; simp
+      simp only [Ne.symm hxr, if_false, hLr, Option.map_none] at hmr
+      have hrd : (run cfg (f + 1) (promoteMove cfg s x xb rb rest (orNull s ctx)) (.free r)).1.get r = none := by
+        have := hcomm.2 r
+        rw [hmr] at this
+        cases h : (run cfg (f + 1) (promoteMove cfg s x xb rb rest (orNull s ctx)) (.free r)).1.get r with
+        | none => rfl
+        | some o => rw [h] at this; cases this
+      exact ⟨xb', r, rb, h1, hr, hrk, h2, hrd⟩
+
+
+/-- what one iteration of the `free_children` loop establishes -/
+structure BodyOut (rk : Nat → Nat) (s s2 : State) (o : Nat) (ob : Obj) (c : Nat) (fn : Bool) : Prop where
+  stuck : s2.stuck = false
+  good : Good rk (rk o + 1) s s2
+  keeps : Keeps (Outside s o) s s2
+  /-- even everything outside the subtree of the child is left alone -/
+  keepsC : Keeps (Outside s c) s s2
+  next : ∃ o2, s2.get o = some o2 ∧ (∀ t, succOf ob.children c = some t → t ∈ o2.children) ∧
+    (fn = true → ∀ post, ob.children = c :: post → o2.children = post)
+  /-- the child list of `o` afterwards: unchanged (the child stays), or the child is gone, what came
+  before and after it is in place, new children are appended, and the subtree has become smaller -/
+  pos : ∀ pre post, ob.children = pre ++ c :: post → (∀ z ∈ pre, ¬ isRefAt s z) →
+    ∃ o2, s2.get o = some o2 ∧ ((o2.children = ob.children ∧ subCard s2 o = subCard s o ∧ isPlainAt s c) ∨
+      (∃ app, o2.children = pre ++ post ++ app ∧ subCard s2 o < subCard s o))
+
+theorem child_inSub {s : State} {o c : Nat} {cb : Obj} (hc : s.get c = some cb) (hcp : cb.parent = some o) :
+    InSub s o c := Or.inr (Anc.parent (by rw [parentOf_eq hc]; exact hcp))
+
+/-- the iteration on a TRef / `.memlimit` chunk -/
+theorem body_leaf3 (cfg : Cfg) (rk : Nat → Nat) (f : Nat) (s : State) (o : Nat) (ob : Obj) (fn : Bool) (c : Nat)
+    (cb : Obj) (i : Inv rk s) (ho : s.get o = some ob) (hst : s.stuck = false) (hcm : c ∈ ob.children)
+    (hc : s.get c = some cb) (hknp : cb.kind ≠ .plain)
+    (hoof : (if (run cfg f s (.unlink (some o) c)).2 ≠ 0 then throwChild cfg (run cfg f s (.unlink (some o) c)).1 c
+      else (run cfg f s (.unlink (some o) c)).1).oof = false) :
+    BodyOut rk s (if (run cfg f s (.unlink (some o) c)).2 ≠ 0 then throwChild cfg (run cfg f s (.unlink (some o) c)).1 c
+      else (run cfg f s (.unlink (some o) c)).1) o ob c fn := by
+  obtain ⟨cb', hc', hcp, -⟩ := i.wf.childBack o ob c ho hcm
+  rw [hc] at hc'; cases hc'
+  obtain ⟨lc, lr, ld, lp⟩ := i.wf.leaf c cb hc hknp
+  have ht : ∀ t, cb.kind = .ref t → t ≠ c := by
+    intro t hkk e; subst e
+    obtain ⟨tb, htb, hm⟩ := i.wf.refBack t cb t hc hkk
+    rw [hc] at htb; cases htb; rw [lr] at hm; cases hm
+  have hpr : cb.parent ≠ some c := by
+    intro e
+    obtain ⟨po, hpo, hpk, -⟩ := i.wf.parentLive c cb c hc e
+    rw [hc] at hpo; cases hpo; exact hknp hpk
+  cases f with
+  | zero => simp [run] at hoof
+  | succ f1 =>
+    have hrun : run cfg (f1 + 1) s (.unlink (some o) c) = run cfg f1 s (.free c) := by
+      simp only [run, hc, orNull, hcp, ne_eq, not_true_eq_false, if_false, lr]
+    rw [hrun] at hoof ⊢
+    cases f1 with
+    | zero => simp [run] at hoof
+    | succ f2 =>
+      obtain ⟨c1, c2⟩ := run_free_leaf cfg f2 s c cb hc hknp lc lr lp ld ht hpr
+      have hs := run_free_leaf_stuck cfg f2 s c cb hc hknp lc lr lp ld ht hpr
+      simp only [c1, ne_eq, not_true_eq_false, if_false] at hoof ⊢
+      have hgo : (freeLeafS s c).get o = some { ob with children := ob.children.erase c, refs := ob.refs.erase c } := by
+        have hoc : o ≠ c := by intro e; subst e; rw [ho] at hc; cases hc; rw [lc] at hcm; cases hcm
+        rw [freeLeafS_get i.wf hc hknp]; unfold eraseAll; simp [hoc, ho]
+      obtain ⟨o2, ho2, -, e2, -⟩ := c2.get hgo
+      have hkeeps : Keeps (Outside s o) s (run cfg (f2 + 1) s (.free c)).1 :=
+        (keeps_freeLeafS i.wf hc hknp (fun h => h.1 (child_inSub hc hcp))).trans (Keeps.of_shapeEq _ c2)
+      have hkeepsC : Keeps (Outside s c) s (run cfg (f2 + 1) s (.free c)).1 :=
+        (keeps_freeLeafS i.wf hc hknp (not_outside_self s c)).trans (Keeps.of_shapeEq _ c2)
+      refine ⟨by rw [hs]; exact hst, good_freeLeaf i hc hknp c2, hkeeps, hkeepsC, ⟨o2, ho2, ?_, ?_⟩, ?_⟩
+      · intro t ht'
+        rw [e2]
+        exact (List.mem_erase_of_ne (succOf_ne _ _ _ (i.wf.childNodup o ob ho) ht')).2 (succOf_mem _ _ _ ht')
+      · intro _ post hpost
+        rw [e2]; show ob.children.erase c = post
+        rw [hpost]; simp
+      · intro pre post hch _
+        refine ⟨o2, ho2, Or.inr ⟨[], ?_, ?_⟩⟩
+        · rw [e2]; show ob.children.erase c = pre ++ post ++ []
+          have hnd := i.wf.childNodup o ob ho
+          rw [hch] at hnd ⊢
+          rw [List.append_nil, erase_mid pre post c (fun h => (List.nodup_append.1 hnd).2.2 c h c (by simp) rfl)]
+        · refine subCard_lt (inSub_back i.wf hkeeps) c cb hc (child_inSub hc hcp) (Or.inl ?_)
+          have hgc : (freeLeafS s c).get c = none := by
+            rw [freeLeafS_get i.wf hc hknp]; unfold eraseAll; simp
+          have := c2.2 c
+          rw [hgc] at this
+          cases h : (run cfg (f2 + 1) s (.free c)).1.get c with
+          | none => rfl
+          | some o => rw [h] at this; cases this
+
+theorem not_ref_of_plain {s : State} {z : Nat} (h : isPlainAt s z) : ¬ isRefAt s z := by
+  rintro ⟨zb, t, h1, h2⟩
+  obtain ⟨ao, h3, h4⟩ := h
+  rw [h1] at h3; cases h3; rw [h2] at h4; cases h4
+
+/-- a sibling of `c` is outside the subtree of `c` -/
+theorem sibling_outside {rk : Nat → Nat} {s : State} (i : Inv rk s) {o c t : Nat} {ob cb : Obj}
+    (ho : s.get o = some ob) (hc : s.get c = some cb) (hcp : cb.parent = some o) (ht : t ∈ ob.children)
+    (hne : t ≠ c) (hpl : ¬ isRefAt s t) : Outside s c t := by
+  obtain ⟨tb, htb, htp, -⟩ := i.wf.childBack o ob t ho ht
+  have hlt := i.ranked.parentLt c cb o hc hcp
+  refine ⟨?_, hpl⟩
+  rintro (e | h)
+  · exact hne e
+  · obtain ⟨p, hp1, hp2⟩ := h.cases_parent
+    rw [parentOf_eq htb, htp] at hp1; cases hp1
+    rcases hp2 with e | h2
+    · subst e; omega
+    · have := h2.rank i.ranked; omega
+
+/-- the iteration on a plain child -/
+theorem body_plain3 (cfg : Cfg) (hfix : cfg.fixCx = true) (rk : Nat → Nat) (f : Nat) (hu3 : UnlinkStmt3 cfg rk f)
+    (s : State) (o : Nat) (ob : Obj) (fn : Bool) (c : Nat) (cb : Obj) (i : Inv rk s) (ho : s.get o = some ob)
+    (hok : ob.kind = .plain) (hpb : PendBelow rk s (rk o) (some o)) (hnr : PendNR s (some o))
+    (hst : s.stuck = false) (hpend : ob.pending = fn) (hhead : fn = true → ob.children.head? = some c)
+    (hcm : c ∈ ob.children) (hc : s.get c = some cb) (hk : cb.kind = .plain)
+    (hoof : (if (run cfg f s (.unlink (some o) c)).2 ≠ 0 then throwChild cfg (run cfg f s (.unlink (some o) c)).1 c
+      else (run cfg f s (.unlink (some o) c)).1).oof = false) :
+    BodyOut rk s (if (run cfg f s (.unlink (some o) c)).2 ≠ 0 then throwChild cfg (run cfg f s (.unlink (some o) c)).1 c
+      else (run cfg f s (.unlink (some o) c)).1) o ob c fn := by
+  have hu := (run_good cfg hfix rk f).2.1
+  obtain ⟨cb', hc', hcp, hcnp⟩ := i.wf.childBack o ob c ho hcm
+  rw [hc] at hc'; cases hc'
+  have hlt := i.ranked.parentLt c cb o hc hcp
+  have hcplain : isPlainAt s c := ⟨cb, hc, hk⟩
+  have horder := i.wf.order o ob ho
+  have hnd := i.wf.childNodup o ob ho
+  have hfl1 : FlagsLe (run cfg f s (.unlink (some o) c)).1
+      (if (run cfg f s (.unlink (some o) c)).2 ≠ 0 then throwChild cfg (run cfg f s (.unlink (some o) c)).1 c
+      else (run cfg f s (.unlink (some o) c)).1) := by
+    split
+    · exact throwChild_flagsLe _ _ _
+    · exact FlagsLe.refl _
+  have hoof1 := (flag_false_of_le hfl1).1 hoof
+  have hnullc : s.nullCtx ≠ some c := by
+    intro e
+    obtain ⟨nb, hb1, -, -, hb4, -⟩ := i.wf.nullOK c e
+    rw [hc] at hb1; cases hb1; rw [hcp] at hb4; cases hb4
+  have hpbc : PendBelow rk s (rk c) none := by
+    intro y yo hy hp _
+    by_cases e : y = o
+    · subst e; exact hlt
+    · have := hpb y yo hy hp (by simpa using e); omega
+  -- if `o` is being freed, all its children are plain by now
+  have hnro : ob.pending = true → NoRefKid s ob := by
+    intro hp
+    have hfn : fn = true := by rw [← hpend]; exact hp
+    have hh := hhead hfn
+    intro z hz
+    apply not_ref_of_plain
+    cases hch : ob.children with
+    | nil => rw [hch] at hz; cases hz
+    | cons a post =>
+      rw [hch] at hh hz horder
+      simp only [List.head?_cons, Option.some.injEq] at hh; subst hh
+      rcases List.mem_cons.1 hz with rfl | hz'
+      · exact hcplain
+      · exact (List.pairwise_cons.1 horder).1 z hz' hcplain
+  have hnr0 : PendNR s none := by
+    intro p pb hp hpp _
+    by_cases e : p = o
+    · subst e; rw [ho] at hp; cases hp; exact hnro hpp
+    · exact hnr p pb hp hpp (by simpa using e)
+  obtain ⟨st1, k1, gone⟩ := hu3 s (some o) c cb i hc hk hcnp (by simp [orNull, hcp]) hnullc hpbc hnr0 hst hoof1
+  obtain ⟨g1, hout⟩ := hu s (some o) c cb i hc hcnp (by simp [orNull, hcp]) hnullc hpbc hoof1 st1
+  generalize run cfg f s (.unlink (some o) c) = r1 at st1 k1 gone g1 hout hoof hoof1 ⊢
+  -- `o` after the unlink
+  have hout_o : Outside s c o := by
+    refine ⟨?_, not_ref_of_plain ⟨ob, ho, hok⟩⟩
+    rintro (e | h)
+    · subst e; omega
+    · have := h.rank i.ranked; omega
+  obtain ⟨o1, ho1, -, hop1, hF2, hF3⟩ := k1.keep o ob hout_o ho
+  have hmono : ∀ y, Outside s o y → Outside s c y := by
+    intro y hy
+    refine ⟨fun h => hy.1 ?_, hy.2⟩
+    rcases h with rfl | h
+    · exact child_inSub hc hcp
+    · exact Or.inr ((Anc.parent (by rw [parentOf_eq hc]; exact hcp)).trans h)
+  have hA : ∀ t, succOf ob.children c = some t → t ∈ o1.children := by
+    intro t ht
+    have htm := succOf_mem _ _ _ ht
+    have htne := succOf_ne _ _ _ hnd ht
+    have htp : isPlainAt s t := succOf_rel _ _ _ _ horder ht hcplain
+    exact hF2 t htm (sibling_outside i ho hc hcp htm htne (not_ref_of_plain htp))
+  have hB : fn = true → ∀ post, ob.children = c :: post →
+      List.Sublist o1.children (c :: post) ∧ ∀ t ∈ post, t ∈ o1.children := by
+    intro hfn post hpost
+    have hp : ob.pending = true := by rw [hpend]; exact hfn
+    refine ⟨by rw [← hpost]; exact hF3 hp (hnro hp), ?_⟩
+    intro t ht
+    have htm : t ∈ ob.children := by rw [hpost]; exact List.mem_cons_of_mem _ ht
+    have htne : t ≠ c := by
+      intro e; subst e; rw [hpost] at hnd; exact (List.nodup_cons.1 hnd).1 ht
+    have htp : isPlainAt s t := by
+      rw [hpost] at horder; exact (List.pairwise_cons.1 horder).1 t ht hcplain
+    exact hF2 t htm (sibling_outside i ho hc hcp htm htne (not_ref_of_plain htp))
+  have hkO : Keeps (Outside s o) s r1.1 := k1.mono hmono
+  -- the child list of `o` after the unlink, by position
+  have hord : ∀ pre post, ob.children = pre ++ c :: post → (∀ z ∈ pre, ¬ isRefAt s z) →
+      ∃ app, o1.children = pre ++ c :: post ++ app ∨ o1.children = pre ++ post ++ app := by
+    intro pre post hch hpre
+    obtain ⟨kf, app, e, hk⟩ := k1.order o ob o1 hout_o ho ho1
+    have hnd' := hnd
+    rw [hch] at hnd' horder
+    have hkpre : ∀ z ∈ pre, kf z = true := by
+      intro z hz
+      have hzm : z ∈ ob.children := by rw [hch]; exact List.mem_append_left _ hz
+      have hzc : z ≠ c := by
+        intro e'; subst e'
+        exact (List.nodup_append.1 hnd').2.2 z hz z (by simp) rfl
+      exact hk z hzm (sibling_outside i ho hc hcp hzm hzc (hpre z hz))
+    have hkpost : ∀ z ∈ post, kf z = true := by
+      intro z hz
+      have hzm : z ∈ ob.children := by rw [hch]; simp [hz]
+      have hzc : z ≠ c := by
+        intro e'; subst e'
+        exact (List.nodup_cons.1 (List.nodup_append.1 hnd').2.1).1 hz
+      have hzp : isPlainAt s z :=
+        (List.pairwise_cons.1 (List.pairwise_append.1 horder).2.1).1 z hz hcplain
+      exact hk z hzm (sibling_outside i ho hc hcp hzm hzc (not_ref_of_plain hzp))
+    refine ⟨app, ?_⟩
+    rw [e, hch, filter_mid pre post c kf hkpre hkpost]
+    cases kf c
+    · right; simp
+    · left; simp
+  -- after a successful unlink the child is gone from the list and the subtree is smaller
+  have hgone0 : r1.2 = 0 → ∀ pre post, ob.children = pre ++ c :: post → (∀ z ∈ pre, ¬ isRefAt s z) →
+      c ∉ o1.children ∧ subCard r1.1 o < subCard s o := by
+    intro hrc pre post hch hpre
+    have hnd' := hnd
+    rw [hch] at hnd' horder
+    rcases gone hrc with hdead | ⟨xb', r, rb, h1, h2, h3, h4, h5⟩
+    · refine ⟨?_, subCard_lt (inSub_back i.wf hkO) c cb hc (child_inSub hc hcp) (Or.inl hdead)⟩
+      intro hm
+      obtain ⟨c1, hc1, -⟩ := g1.inv.wf.childBack o o1 c ho1 hm
+      rw [hdead] at hc1; cases hc1
+    · -- promoted to the context `q` of its first reference
+      have hrnp : rb.kind ≠ .plain := by rw [h3]; simp
+      have hnot_o : rb.parent ≠ some o := by
+        intro hrp
+        obtain ⟨po, hpo, -, hmr⟩ := i.wf.parentLive r rb o h2 hrp
+        rw [ho] at hpo; cases hpo
+        have hrm : r ∈ ob.children := by
+          rcases hmr with h | h
+          · exact h
+          · rw [(i.wf.leaf r rb h2 hrnp).2.2.2] at h; cases h
+        have hrr : isRefAt s r := ⟨rb, c, h2, h3⟩
+        rw [hch] at hrm
+        rcases List.mem_append.1 hrm with hm | hm
+        · exact hpre r hm hrr
+        · rcases List.mem_cons.1 hm with e | hm'
+          · subst e; rw [hc] at h2; cases h2; exact hrnp hk
+          · exact not_ref_of_plain ((List.pairwise_cons.1 (List.pairwise_append.1 horder).2.1).1 r hm' hcplain) hrr
+      refine ⟨?_, ?_⟩
+      · intro hm
+        obtain ⟨c1, hc1, hcp1, -⟩ := g1.inv.wf.childBack o o1 c ho1 hm
+        rw [hc1] at h1; cases h1
+        exact hnot_o (by rw [← h4]; exact hcp1)
+      · cases hq : rb.parent with
+        | none =>
+          -- promoted to the top: `c` has left the subtree
+          refine subCard_lt (inSub_back i.wf hkO) c cb hc (child_inSub hc hcp) (Or.inr ?_)
+          rintro (e | h)
+          · subst e; omega
+          · obtain ⟨p, hp1, -⟩ := h.cases_parent
+            rw [parentOf_eq h1, h4, hq] at hp1; cases hp1
+        | some q =>
+          by_cases hqin : InSub s o q
+          · -- the TRef chunk was in the subtree and is released
+            refine subCard_lt (inSub_back i.wf hkO) r rb h2
+              (InSub.of_parent (by rw [parentOf_eq h2]; exact hq) hqin) (Or.inl h5)
+          · refine subCard_lt (inSub_back i.wf hkO) c cb hc (child_inSub hc hcp) (Or.inr ?_)
+            rintro (e | h)
+            · subst e; omega
+            · obtain ⟨p, hp1, hp2⟩ := h.cases_parent
+              rw [parentOf_eq h1, h4, hq] at hp1; cases hp1
+              have hqin2 : InSub r1.1 o q := by
+                rcases hp2 with e | h'
+                · exact Or.inl e
+                · exact Or.inr h'
+              obtain ⟨qb, hqb, -⟩ := g1.inv.wf.parentLive c xb' q h1 (by rw [h4]; exact hq)
+              exact hqin (inSub_back i.wf hkO q qb hqb hqin2).2
+  by_cases hrc : r1.2 = 0
+  · simp only [hrc, ne_eq, not_true_eq_false, if_false] at hoof ⊢
+    refine ⟨st1, g1.mono (by omega), hkO, k1, ⟨o1, ho1, hA, ?_⟩, ?_⟩
+    rotate_left
+    · intro pre post hch hpre
+      obtain ⟨hcn, hlt'⟩ := hgone0 hrc pre post hch hpre
+      obtain ⟨app, h | h⟩ := hord pre post hch hpre
+      · exact absurd (by rw [h]; simp) hcn
+      · exact ⟨o1, ho1, Or.inr ⟨app, h, hlt'⟩⟩
+    intro hfn post hpost
+    obtain ⟨hs, hall⟩ := hB hfn post hpost
+    have hp : ob.pending = true := by rw [hpend]; exact hfn
+    refine sublist_tail_eq _ _ c hs ?_ hall (by rw [← hpost]; exact hnd)
+    intro hm
+    obtain ⟨c1, hc1, hcp1, -⟩ := g1.inv.wf.childBack o o1 c ho1 hm
+    rcases gone hrc with h | ⟨xb', r, rb, h1, h2, h3, h4, -⟩
+    · rw [h] at hc1; cases hc1
+    · rw [hc1] at h1; cases h1
+      have hrp : rb.parent = some o := by rw [← h4]; exact hcp1
+      obtain ⟨po, hpo, -, hmr⟩ := i.wf.parentLive r rb o h2 hrp
+      rw [ho] at hpo; cases hpo
+      have hrm : r ∈ ob.children := by
+        rcases hmr with h | h
+        · exact h
+        · rw [(i.wf.leaf r rb h2 (by rw [h3]; simp)).2.2.2] at h; cases h
+      exact hnro hp r hrm ⟨rb, c, h2, h3⟩
+  · simp only [ne_eq, hrc, not_false_eq_true, if_true] at hoof ⊢
+    rcases hout with h0 | ⟨hck, d, hsh⟩
+    · exact absurd h0 hrc
+    obtain ⟨c1, hc1, e1, -, -, e4, e5, -⟩ := hsh.get (j := c) (o := { cb with dtor := d }) (by simp [hc])
+    have hc1p : c1.parent = some o := by rw [e1]; exact hcp
+    have hc1k : c1.kind = .plain := by rw [e4]; exact hck
+    have hc1np : c1.pending = false := by rw [e5]; exact hcnp
+    obtain ⟨o1', ho1', hop1', -, hok1⟩ := g1.stable o ob ho hok hlt
+    rw [ho1] at ho1'; cases ho1'
+    have gthrow := throw_good cfg hfix rk r1.1 c o c1 o1 g1.inv hc1 hc1k hc1np hc1p ho1 hok1 hoof
+    have hstuck2 : (throwChild cfg r1.1 c).stuck = false := by
+      rw [(frame_throwChild cfg r1.1 c).stuck]; exact st1
+    -- what throw_child did
+    have hnull1 : r1.1.nullCtx ≠ some c := by
+      intro e
+      obtain ⟨nb, hb1, -, -, hb4, -⟩ := g1.inv.wf.nullOK c e
+      rw [hc1] at hb1; cases hb1; rw [hc1p] at hb4; cases hb4
+    unfold throwChild at hoof ⊢
+    simp only [hc1, hc1p] at hoof ⊢
+    cases hcl : climbPending r1.1.fuel r1.1 (some o) with
+    | none => simp [hcl] at hoof
+    | some res =>
+      simp only [hcl, hfix, if_true] at hoof ⊢
+      have hspec := climbPending_spec g1.inv r1.1.fuel o o1 ho1 hok1 res hcl
+      have htgt : ∀ q qb, orNull r1.1 res = some q → r1.1.get q = some qb → qb.pending = false := by
+        intro q qb hq hqb
+        rcases hspec with h | ⟨q', qb', h1, h2, -, h4, -⟩
+        · subst h
+          simp only [orNull] at hq
+          obtain ⟨nb, hb1, -, hb3, -⟩ := g1.inv.wf.nullOK q hq
+          rw [hqb] at hb1; cases hb1; exact hb3
+        · subst h1
+          simp only [orNull, Option.some.injEq] at hq; subst hq
+          rw [hqb] at h2; cases h2; exact h4
+      by_cases hsame : orNull r1.1 res = some o
+      · -- `o` is not being freed: the child stays
+        simp only [hsame, ne_eq, not_true_eq_false, if_false] at gthrow hstuck2 ⊢
+        have hoc' : o ≠ c := by intro e; subst e; omega
+        have hch1 : o1.children = ob.children := by
+          obtain ⟨o1'', h, -, e2, -⟩ := hsh.get (j := o) (o := ob) (by simp [Ne.symm hoc', ho])
+          rw [ho1] at h; cases h; exact e2
+        refine ⟨st1, g1.mono (by omega), hkO, k1, ⟨o1, ho1, hA, ?_⟩, ?_⟩
+        · intro hfn
+          exfalso
+          have := htgt o o1 hsame ho1
+          rw [hop1, hpend, hfn] at this; cases this
+        · intro pre post hch hpre
+          exact ⟨o1, ho1, Or.inl ⟨hch1, subCard_shape_dtor c d o hsh, hcplain⟩⟩
+      · simp only [ne_eq, hsame, not_false_eq_true, if_true] at hoof ⊢
+        have hshm := moveChild_shapeEq cfg r1.1 c c1 hc1 (orNull r1.1 res) (some o)
+        have hir : isRef c1 = false := by simp [isRef, hc1k]
+        rw [hir] at hshm
+        have hselfq : orNull r1.1 res ≠ some c := by
+          intro e
+          have := htgt c c1 e hc1
+          rcases hspec with h | ⟨q', qb', h1, h2, -, -, h5⟩
+          · subst h; exact hnull1 e
+          · subst h1; simp only [orNull, Option.some.injEq] at e; subst e; omega
+        have hself' : c1.parent ≠ some c := by
+          rw [hc1p]; intro e; have e' : o = c := Option.some.inj e; subst e'; omega
+        have hgood : Good rk (rk o + 1) s (moveChild cfg r1.1 c (orNull r1.1 res) (some o)) := by
+          have : Good rk (rk o + 1) r1.1 (throwChild cfg r1.1 c) :=
+            throw_good cfg hfix rk r1.1 c o c1 o1 g1.inv hc1 hc1k hc1np hc1p ho1 hok1
+              (by unfold throwChild; simp only [hc1, hc1p, hcl, hfix, if_true, ne_eq, hsame, not_false_eq_true]; exact hoof)
+          unfold throwChild at this
+          simp only [hc1, hc1p, hcl, hfix, if_true, ne_eq, hsame, not_false_eq_true] at this
+          exact (g1.mono (by omega)).trans this
+        have kthrow : Keeps (Outside s o) r1.1 (moveChild cfg r1.1 c (orNull r1.1 res) (some o)) :=
+          (keeps_moveS g1.inv.wf hc1 hc1k (orNull r1.1 res) hselfq hself' (fun h => h.1 (child_inSub hc hcp))
+            (fun q qb hq hqb hp => by rw [htgt q qb hq hqb] at hp; cases hp)).trans (Keeps.of_shapeEq _ hshm)
+        have hgo := moveS_getG hc1 (orNull r1.1 res) false hselfq hself' o
+        have hoc : o ≠ c := by intro e; subst e; omega
+        simp only [hoc, if_false, ho1, Option.map_some, hsame, hc1p, if_true, Bool.false_eq_true] at hgo
+        obtain ⟨o2, ho2, -, e2, -⟩ := hshm.get hgo
+        have hch1 : o1.children = ob.children := by
+          obtain ⟨o1'', h, -, e2', -⟩ := hsh.get (j := o) (o := ob) (by simp [Ne.symm hoc, ho])
+          rw [ho1] at h; cases h; exact e2'
+        have hkO2 := hkO.trans kthrow
+        have kthrowC : Keeps (Outside s c) r1.1 (moveChild cfg r1.1 c (orNull r1.1 res) (some o)) :=
+          (keeps_moveS g1.inv.wf hc1 hc1k (orNull r1.1 res) hselfq hself' (not_outside_self s c)
+            (fun q qb hq hqb hp => by rw [htgt q qb hq hqb] at hp; cases hp)).trans (Keeps.of_shapeEq _ hshm)
+        refine ⟨by rw [(frame_moveChild cfg r1.1 c _ _).stuck]; exact st1, hgood, hkO2, k1.trans kthrowC,
+          ⟨o2, ho2, ?_, ?_⟩, ?_⟩
+        rotate_left 2
+        · intro pre post hch hpre
+          refine ⟨o2, ho2, Or.inr ⟨[], ?_, ?_⟩⟩
+          · rw [e2]; show o1.children.erase c = pre ++ post ++ []
+            have hnd' := hnd
+            rw [hch] at hnd'
+            rw [hch1, hch, List.append_nil,
+              erase_mid pre post c (fun h => (List.nodup_append.1 hnd').2.2 c h c (by simp) rfl)]
+          · -- the child now hangs above `o`
+            refine subCard_lt (inSub_back i.wf hkO2) c cb hc (child_inSub hc hcp) (Or.inr ?_)
+            have hgc := moveS_getG hc1 (orNull r1.1 res) false hselfq hself' c
+            simp only [if_true] at hgc
+            obtain ⟨c2, hc2, e1c, -⟩ := hshm.get hgc
+            rintro (e | h)
+            · exact hoc e.symm
+            · obtain ⟨p, hp1, hp2⟩ := h.cases_parent
+              rw [parentOf_eq hc2, e1c] at hp1
+              have hpin : InSub (moveChild cfg r1.1 c (orNull r1.1 res) (some o)) o p := by
+                rcases hp2 with e | h'
+                · exact Or.inl e
+                · exact Or.inr h'
+              have hpo : p ≠ o := by intro e; subst e; exact hsame hp1
+              obtain ⟨pb2, hpb2, -⟩ := hgood.inv.wf.parentLive c c2 p hc2 (by rw [e1c]; exact hp1)
+              have hps := (inSub_back i.wf hkO2 p pb2 hpb2 hpin).2
+              rcases hps with e | hanc
+              · exact hpo e
+              · have hr1 := hanc.rank i.ranked
+                rcases hspec with hn | ⟨q', qb', h1, -, -, -, h5⟩
+                · subst hn
+                  simp only [orNull] at hp1
+                  rw [g1.null] at hp1
+                  obtain ⟨nb, hb1, -, -, hb4, -⟩ := i.wf.nullOK p hp1
+                  obtain ⟨p', hp', -⟩ := hanc.cases_parent
+                  rw [parentOf_eq hb1, hb4] at hp'; cases hp'
+                · subst h1
+                  simp only [orNull, Option.some.injEq] at hp1; subst hp1
+                  omega
+        · intro t ht
+          rw [e2]
+          exact (List.mem_erase_of_ne (succOf_ne _ _ _ hnd ht)).2 (hA t ht)
+        · intro hfn post hpost
+          obtain ⟨hs, hall⟩ := hB hfn post hpost
+          rw [e2]
+          have hnd1 := g1.inv.wf.childNodup o o1 ho1
+          refine sublist_tail_eq _ _ c (List.erase_sublist.trans hs) ?_ ?_ (by rw [← hpost]; exact hnd)
+          · exact fun hm => (List.Nodup.mem_erase_iff hnd1).1 hm |>.1 rfl
+          · intro t ht
+            have htne : t ≠ c := by
+              intro e; subst e; rw [hpost] at hnd; exact (List.nodup_cons.1 hnd).1 ht
+            exact (List.mem_erase_of_ne htne).2 (hall t ht)
+
+
+theorem loop_step3 (cfg : Cfg) (hfix : cfg.fixCx = true) (rk : Nat → Nat) (f : Nat)
+    (hu3 : UnlinkStmt3 cfg rk f) (hl3 : LoopStmt3 cfg rk f) : LoopStmt3 cfg rk (f + 1) := by
+  intro s o ob fn cur i ho hok hpb hnr hst hpend hhead hmemc hoof
+  cases cur with
+  | none =>
+    simp only [run]
+    refine ⟨hst, Keeps.refl _ _, ?_⟩
+    intro hfn
+    have := hhead hfn
+    rw [childrenOf_eq ho]
+    cases h : ob.children with
+    | nil => rfl
+    | cons a l => rw [h] at this; cases this
+  | some c =>
+    have hcm : c ∈ ob.children := hmemc c rfl
+    simp only [run] at hoof ⊢
+    have hse : loopEnter s o c = s := by
+      unfold loopEnter; rw [if_pos]; rw [childrenOf_eq ho]; simpa using hcm
+    rw [hse] at hoof ⊢
+    obtain ⟨cb, hc, hcp, hcnp⟩ := i.wf.childBack o ob c ho hcm
+    simp only [hc] at hoof ⊢
+    rw [childrenOf_eq ho] at hoof ⊢
+    by_cases hskip : (!fn && isLimit cb) = true
+    · simp only [hskip, if_true] at hoof ⊢
+      have hfn : fn = false := by cases fn <;> simp_all
+      exact hl3 s o ob fn _ i ho hok hpb hnr hst hpend (by intro h; rw [hfn] at h; cases h)
+        (fun t ht => succOf_mem _ _ _ ht) hoof
+    · simp only [hskip, if_false] at hoof ⊢
+      have hfl2 := run_flagsLe cfg f
+        (if (run cfg f s (.unlink (some o) c)).2 ≠ 0 then throwChild cfg (run cfg f s (.unlink (some o) c)).1 c
+          else (run cfg f s (.unlink (some o) c)).1) (.loop o fn (succOf ob.children c))
+      have hoof2 := (flag_false_of_le hfl2).1 hoof
+      have hbody : BodyOut rk s
+          (if (run cfg f s (.unlink (some o) c)).2 ≠ 0 then throwChild cfg (run cfg f s (.unlink (some o) c)).1 c
+            else (run cfg f s (.unlink (some o) c)).1) o ob c fn := by
+        by_cases hk : cb.kind = .plain
+        · exact body_plain3 cfg hfix rk f hu3 s o ob fn c cb i ho hok hpb hnr hst hpend
+            (fun hfn => by rw [← hhead hfn]) hcm hc hk hoof2
+        · exact body_leaf3 cfg rk f s o ob fn c cb i ho hst hcm hc hk hoof2
+      generalize (if (run cfg f s (.unlink (some o) c)).2 ≠ 0 then throwChild cfg (run cfg f s (.unlink (some o) c)).1 c
+          else (run cfg f s (.unlink (some o) c)).1) = s2 at hbody hoof hoof2 ⊢
+      obtain ⟨st2, g2, k2, -, ⟨o2, ho2, hnext, hexact⟩, -⟩ := hbody
+      obtain ⟨o2', ho2', hop2, -, hok2⟩ := g2.stable o ob ho hok (Nat.lt_succ_self _)
+      rw [ho2] at ho2'; cases ho2'
+      have hnr2 : PendNR s2 (some o) := by
+        intro p pb hp hpp hne
+        obtain ⟨yo0, h0, h1⟩ := g2.nnp p pb hp hpp
+        have hne' : p ≠ o := fun e => hne (by rw [e])
+        have hout := pending_outside i h0 h1 (hpb p yo0 h0 h1 hne)
+        obtain ⟨pb', h2, -, -, -, h5⟩ := k2.keep p yo0 hout h0
+        rw [hp] at h2; cases h2
+        exact noRefKid_of_sublist k2 (hnr p yo0 h0 h1 hne) (h5 h1 (hnr p yo0 h0 h1 hne))
+      have hhead2 : fn = true → succOf ob.children c = o2.children.head? := by
+        intro hfn
+        have hh := hhead hfn
+        cases hch : ob.children with
+        | nil => rw [hch] at hcm; cases hcm
+        | cons a post =>
+          rw [hch] at hh
+          simp only [List.head?_cons, Option.some.injEq] at hh; subst hh
+          rw [hexact hfn post hch, succOf_head]
+      obtain ⟨st3, k3, hch3⟩ := hl3 s2 o o2 fn _ g2.inv ho2 hok2 (hpb.of_nnp g2.nnp) hnr2 st2
+        (by rw [hop2]; exact hpend) hhead2 hnext hoof
+      exact ⟨st3, k2.trans (k3.mono (outside_stable i.wf k2)), hch3⟩
+
+/-- **no_stuck** (with `Keeps`): `_talloc_free`, `_talloc_unlink` and the `free_children` loops never
+lose the `list_for_each_safe` cursor and leave no child behind -/
+theorem run_out (cfg : Cfg) (hfix : cfg.fixCx = true) (rk : Nat → Nat) (f : Nat) :
+    FreeStmt3 cfg rk f ∧ UnlinkStmt3 cfg rk f ∧ LoopStmt3 cfg rk f := by
+  induction f with
+  | zero =>
+    refine ⟨?_, ?_, ?_⟩
+    · intro s x xb _ _ _ _ _ _ _ _ _ hoof; simp [run] at hoof
+    · intro s ctx x xb _ _ _ _ _ _ _ _ _ hoof; simp [run] at hoof
+    · intro s o ob fn cur _ _ _ _ _ _ _ _ _ hoof; simp [run] at hoof
+  | succ f ih =>
+    exact ⟨free_step3 cfg hfix rk f ih.2.2, unlink_step3 cfg hfix rk f ih.1, loop_step3 cfg hfix rk f ih.2.1 ih.2.2⟩
 
 end Usual.C01
